@@ -16,11 +16,11 @@
 (* Items marked (!) are quirks of the code that a textbook VT model would   *)
 (* get wrong; the model copies them because it must predict the code.       *)
 (***************************************************************************)
-EXTENDS Integers, Sequences, Palette, Xterm256
+EXTENDS Integers, Sequences, SequencesExt, Palette, Xterm256
 
 MaxI == 2147483647
-Max(a, b) == IF a > b THEN a ELSE b
-Min(a, b) == IF a < b THEN a ELSE b
+Max2(a, b) == IF a > b THEN a ELSE b
+Min2(a, b) == IF a < b THEN a ELSE b
 Clamp(v, lo, hi) == IF v < lo THEN lo ELSE IF v > hi THEN hi ELSE v
 SatAdd(a, b) == IF b >= 0 THEN (IF a > MaxI - b THEN MaxI ELSE a + b) ELSE (IF a < (-MaxI) - b THEN -MaxI ELSE a + b)
 SatSub(a, b) == IF b >= 0 THEN (IF a < (-MaxI) + b THEN -MaxI ELSE a - b) ELSE SatAdd(a, -b)
@@ -55,7 +55,7 @@ Scalar(c) == (c >= 0 /\ c <= 55295) \/ (c >= 57344 /\ c <= 1114111)
 
 \* ------------------------------------------------------------------ geometry (buffers.rs)
 NL(s) == Len(s.rows)
-First(s) == Max(0, s.bh - s.th)                                   \* get_first_visible_line
+First(s) == Max2(0, s.bh - s.th)                                   \* get_first_visible_line
 HasTB(s) == s.mtb # <<>>
 FirstEdit(s) == IF HasTB(s) THEN SatAdd(First(s), s.mtb[1]) ELSE First(s)
 LastEdit(s) == IF HasTB(s) THEN SatAdd(First(s), s.mtb[2]) ELSE First(s) + s.bh - 1      \* (!) buffer height, not terminal height
@@ -65,14 +65,14 @@ LastVisible(s) == First(s) + s.bh                                 \* (!) get_las
 UpperLeft(s) == <<0, First(s)>>                                   \* origin mode is always UpperLeftCorner ((!) ?6l is a no-op)
 SetTB(s, t, b) == [s EXCEPT !.mtb = IF t > b THEN <<>> ELSE <<t, b>>]
 SetLR(s, a, b) == [s EXCEPT !.mlr = IF a > b THEN <<>> ELSE <<a, b>>]
-Limit(s) == [s EXCEPT !.y = Clamp(s.y, First(s), First(s) + s.th - 1), !.x = Clamp(s.x, 0, Max(s.tw - 1, 0))]
+Limit(s) == [s EXCEPT !.y = Clamp(s.y, First(s), First(s) + s.th - 1), !.x = Clamp(s.x, 0, Max2(s.tw - 1, 0))]
 CaretInScreen(s) == s.x >= 0 /\ s.x <= s.tw - 1 /\ s.y >= First(s) /\ s.y <= First(s) + s.th - 1
 
 \* reset_tabs: every 8 columns below the width
 DefTabs(w) == [i \in 1..((w + 7) \div 8) |-> (i - 1) * 8]
 
 \* ------------------------------------------------------------------ rows and cells (layer.rs, line.rs)
-Repeat(v, n) == [i \in 1..Max(n, 0) |-> v] \o <<>>          \* \o <<>> forces TLC to materialise the lazy function as a tuple
+Repeat(v, n) == [i \in 1..Max2(n, 0) |-> v] \o <<>>          \* \o <<>> forces TLC to materialise the lazy function as a tuple
 RowAt(s, y) == IF y >= 0 /\ y < NL(s) THEN s.rows[y + 1] ELSE <<>>
 RowExists(s, y) == y >= 0 /\ y < NL(s)
 \* Layer::get_char
@@ -85,30 +85,30 @@ LineLen(row, n) == IF n = 0 THEN 0 ELSE IF ~Transparent(row[n]) THEN n ELSE Line
 \* a run of Layer::set_char on row y for the columns lo..hi with cells F(x): rows materialised as full-width rows of
 \* invisible cells (!), the row padded with invisible cells up to the last written column
 WriteRow(s, y, lo0, hi0, F(_)) ==
-  LET lo == Max(lo0, 0)  hi == Min(hi0, s.lw - 1) IN
+  LET lo == Max2(lo0, 0)  hi == Min2(hi0, s.lw - 1) IN
   IF y < 0 \/ y >= s.lh \/ lo > hi THEN s
   ELSE LET r1 == IF y >= NL(s) THEN s.rows \o Repeat(Repeat(InvCell, s.lw), y + 1 - NL(s)) ELSE s.rows
            old == r1[y + 1]
-           new == [i \in 1..Max(Len(old), hi + 1) |-> IF i - 1 >= lo /\ i - 1 <= hi THEN F(i - 1) ELSE IF i <= Len(old) THEN old[i] ELSE InvCell] \o <<>>
+           new == [i \in 1..Max2(Len(old), hi + 1) |-> IF i - 1 >= lo /\ i - 1 <= hi THEN F(i - 1) ELSE IF i <= Len(old) THEN old[i] ELSE InvCell] \o <<>>
        IN [s EXCEPT !.rows = [r1 EXCEPT ![y + 1] = new]]
 SetCell(s, x, y, cell) == WriteRow(s, y, x, x, LAMBDA q : cell)
-RemoveAt(seq, i) == SubSeq(seq, 1, i - 1) \o SubSeq(seq, i + 1, Len(seq))        \* 1-based
-InsertAt(seq, i, v) == SubSeq(seq, 1, i - 1) \o <<v>> \o SubSeq(seq, i, Len(seq)) \* v becomes element i
+SeqRemove(seq, i) == SubSeq(seq, 1, i - 1) \o SubSeq(seq, i + 1, Len(seq))        \* 1-based
+SeqInsert(seq, i, v) == SubSeq(seq, 1, i - 1) \o <<v>> \o SubSeq(seq, i, Len(seq)) \* v becomes element i
 \* Line::set_char on an existing row (no layer bounds)
-LineSet(row, x, cell) == [i \in 1..Max(Len(row), x + 1) |-> IF i = x + 1 THEN cell ELSE IF i <= Len(row) THEN row[i] ELSE InvCell] \o <<>>
+LineSet(row, x, cell) == [i \in 1..Max2(Len(row), x + 1) |-> IF i = x + 1 THEN cell ELSE IF i <= Len(row) THEN row[i] ELSE InvCell] \o <<>>
 \* Line::insert_char
-LineInsert(row, x, cell) == LET p == IF x > Len(row) THEN row \o Repeat(InvCell, x - Len(row)) ELSE row IN InsertAt(p, x + 1, cell)
+LineInsert(row, x, cell) == LET p == IF x > Len(row) THEN row \o Repeat(InvCell, x - Len(row)) ELSE row IN SeqInsert(p, x + 1, cell)
 
 \* ------------------------------------------------------------------ scrolling (parsers/mod.rs)
 \* scroll_up: per column, rows start..end-1 take the cell below (reads see the old values), row `end` gets a default
 \* blank; executed even when start > end (!).  end row / column clamped to the layer (cells outside cannot be written).
 ScrollUp(s) ==
-  LET a == FirstEdit(s)  b == Min(LastEdit(s), s.lh)  c0 == FirstCol(s)  c1 == Min(LastCol(s), s.lw)
+  LET a == FirstEdit(s)  b == Min2(LastEdit(s), s.lh)  c0 == FirstCol(s)  c1 == Min2(LastCol(s), s.lw)
       RECURSIVE Go(_, _)
       Go(t, y) == IF y >= b THEN t ELSE Go(WriteRow(t, y, c0, c1, LAMBDA x : GetCell(s, x, y + 1)), y + 1)
   IN IF c0 > c1 THEN s ELSE WriteRow(Go(s, a), b, c0, c1, LAMBDA x : Blank)
 ScrollDown(s) ==
-  LET a == FirstEdit(s)  b == Min(LastEdit(s), s.lh)  c0 == FirstCol(s)  c1 == Min(LastCol(s), s.lw)
+  LET a == FirstEdit(s)  b == Min2(LastEdit(s), s.lh)  c0 == FirstCol(s)  c1 == Min2(LastCol(s), s.lw)
       RECURSIVE Go(_, _)
       Go(t, y) == IF y <= a THEN t ELSE Go(WriteRow(t, y, c0, c1, LAMBDA x : GetCell(s, x, y - 1)), y - 1)
   IN IF c0 > c1 THEN s ELSE WriteRow(Go(s, b), a, c0, c1, LAMBDA x : Blank)
@@ -117,30 +117,30 @@ Times(Op(_), s, n) == IF n <= 0 THEN s ELSE Times(Op, Op(s), n - 1)
 
 \* scroll_left / scroll_right on the rows of the region that exist and are longer than the first column
 ScrollLeft(s) ==
-  LET a == FirstEdit(s)  b == Min(LastEdit(s), NL(s) - 1)  c0 == FirstCol(s)  c1 == LastCol(s) + 1 IN
+  LET a == FirstEdit(s)  b == Min2(LastEdit(s), NL(s) - 1)  c0 == FirstCol(s)  c1 == LastCol(s) + 1 IN
   [s EXCEPT !.rows = [i \in 1..NL(s) |->
       LET row == s.rows[i] IN
       IF i - 1 >= a /\ i - 1 <= b /\ c0 >= 0 /\ Len(row) > c0
-      THEN RemoveAt(InsertAt(row, Min(Max(c1, 0), Len(row)) + 1, Blank), c0 + 1) ELSE row] \o <<>>]
+      THEN SeqRemove(SeqInsert(row, Min2(Max2(c1, 0), Len(row)) + 1, Blank), c0 + 1) ELSE row] \o <<>>]
 ScrollRight(s) ==
-  LET a == FirstEdit(s)  b == Min(LastEdit(s), NL(s) - 1)  c0 == FirstCol(s)  c1 == LastCol(s) IN
+  LET a == FirstEdit(s)  b == Min2(LastEdit(s), NL(s) - 1)  c0 == FirstCol(s)  c1 == LastCol(s) IN
   [s EXCEPT !.rows = [i \in 1..NL(s) |->
       LET row == s.rows[i] IN
       IF i - 1 >= a /\ i - 1 <= b /\ c0 >= 0 /\ Len(row) > c0
-      THEN LET r1 == InsertAt(row, c0 + 1, Blank) IN IF c1 + 1 >= 0 /\ c1 + 1 < Len(r1) THEN RemoveAt(r1, c1 + 2) ELSE r1
+      THEN LET r1 == SeqInsert(row, c0 + 1, Blank) IN IF c1 + 1 >= 0 /\ c1 + 1 < Len(r1) THEN SeqRemove(r1, c1 + 2) ELSE r1
       ELSE row] \o <<>>]
 
 \* Layer::insert_line(index, empty row): pads with full-width invisible rows (!)
 LayerInsertLine(s, idx) ==
   LET r1 == IF idx > NL(s) THEN s.rows \o Repeat(Repeat(InvCell, s.lw), idx - NL(s)) ELSE s.rows
-  IN [s EXCEPT !.rows = InsertAt(r1, idx + 1, <<>>)]
+  IN [s EXCEPT !.rows = SeqInsert(r1, idx + 1, <<>>)]
 \* insert_terminal_line: with a top/bottom margin the row at the (relative (!)) bottom index is dropped first
 InsertTermLine(s, line) ==
-  LET s1 == IF HasTB(s) /\ s.mtb[2] >= 0 /\ s.mtb[2] < NL(s) THEN [s EXCEPT !.rows = RemoveAt(s.rows, s.mtb[2] + 1)] ELSE s
-  IN LayerInsertLine(s1, Max(line, 0))
+  LET s1 == IF HasTB(s) /\ s.mtb[2] >= 0 /\ s.mtb[2] < NL(s) THEN [s EXCEPT !.rows = SeqRemove(s.rows, s.mtb[2] + 1)] ELSE s
+  IN LayerInsertLine(s1, Max2(line, 0))
 RemoveTermLine(s, line) ==
   IF line >= NL(s) \/ line < 0 THEN s
-  ELSE LET s1 == [s EXCEPT !.rows = RemoveAt(s.rows, line + 1)]
+  ELSE LET s1 == [s EXCEPT !.rows = SeqRemove(s.rows, line + 1)]
        IN IF HasTB(s1) THEN LayerInsertLine(s1, Clamp(s1.mtb[2], 0, s1.lh)) ELSE s1
 
 \* ------------------------------------------------------------------ caret motion (parsers/mod.rs impl Caret)
@@ -150,7 +150,7 @@ RECURSIVE CheckUpLoop(_)
 CheckUpLoop(s) == IF s.y < FirstEdit(s) THEN CheckUpLoop([ScrollDown(s) EXCEPT !.y = s.y + 1]) ELSE s
 CheckUp(s, force) ==
   IF HasTB(s) \/ force
-  THEN CheckUpLoop([s EXCEPT !.y = Max(s.y, SatSub(FirstEdit(s), SatAdd(s.lh, 1)))])
+  THEN CheckUpLoop([s EXCEPT !.y = Max2(s.y, SatSub(FirstEdit(s), SatAdd(s.lh, 1)))])
   ELSE s
 RECURSIVE AppendEmpty(_, _)
 AppendEmpty(rows, n) == IF n <= 0 THEN rows ELSE AppendEmpty(Append(rows, <<>>), n - 1)
@@ -159,7 +159,7 @@ Lf(s) ==
   LET ooe == s.y > LastEdit(s)
       s1 == [s EXCEPT !.x = 0, !.y = s.y + 1]
       s2 == [s1 EXCEPT !.rows = AppendEmpty(s1.rows, s1.y + 1 - NL(s1))]
-      s3 == [s2 EXCEPT !.bh = Max(s2.bh, s2.y + 1)]
+      s3 == [s2 EXCEPT !.bh = Max2(s2.bh, s2.y + 1)]
   IN IF ooe THEN Limit(s3) ELSE CheckDown(s3, FALSE)
 \* TerminalState::from(size) as used by reset_terminal
 ResetTerminal(s) == [s EXCEPT !.mtb = <<>>, !.mlr = <<>>, !.aw = TRUE, !.dm = FALSE, !.tabs = DefTabs(s.tw), !.fsel = 99, !.fslots = <<0, 0, 0, 0>>]
@@ -174,14 +174,14 @@ Right(s, n) == Limit([s EXCEPT !.x = SatAdd(s.x, n)])
 Index(s) == Limit(CheckDown([s EXCEPT !.y = s.y + 1], TRUE))
 ReverseIndex(s) == Limit(CheckUp([s EXCEPT !.y = s.y - 1], TRUE))
 NextLine(s) == Limit(CheckDown([s EXCEPT !.y = s.y + 1, !.x = 0], TRUE))
-Bs(s) == LET s1 == [s EXCEPT !.x = Max(0, s.x - 1)] IN SetCell(s1, s1.x, s1.y, Cell(32, s1.ca))
-Del(s) == IF RowExists(s, s.y) /\ s.x >= 0 /\ s.x < Len(RowAt(s, s.y)) THEN [s EXCEPT !.rows[s.y + 1] = RemoveAt(@, s.x + 1)] ELSE s
-Ins(s) == IF RowExists(s, s.y) /\ s.x >= 0 /\ s.x < Len(RowAt(s, s.y)) THEN [s EXCEPT !.rows[s.y + 1] = InsertAt(@, s.x + 1, Cell(32, s.ca))] ELSE s
+Bs(s) == LET s1 == [s EXCEPT !.x = Max2(0, s.x - 1)] IN SetCell(s1, s1.x, s1.y, Cell(32, s1.ca))
+Del(s) == IF RowExists(s, s.y) /\ s.x >= 0 /\ s.x < Len(RowAt(s, s.y)) THEN [s EXCEPT !.rows[s.y + 1] = SeqRemove(@, s.x + 1)] ELSE s
+Ins(s) == IF RowExists(s, s.y) /\ s.x >= 0 /\ s.x < Len(RowAt(s, s.y)) THEN [s EXCEPT !.rows[s.y + 1] = SeqInsert(@, s.x + 1, Cell(32, s.ca))] ELSE s
 Erase(s, n0) ==
-  LET n == Min(s.tw - s.x, n0) IN
+  LET n == Min2(s.tw - s.x, n0) IN
   IF n <= 0 \/ ~RowExists(s, s.y) THEN s
   ELSE LET old == RowAt(s, s.y)
-           new == [i \in 1..Max(Len(old), s.x + n) |-> IF i - 1 >= s.x /\ i - 1 < s.x + n THEN Cell(32, s.ca) ELSE IF i <= Len(old) THEN old[i] ELSE InvCell] \o <<>>
+           new == [i \in 1..Max2(Len(old), s.x + n) |-> IF i - 1 >= s.x /\ i - 1 < s.x + n THEN Cell(32, s.ca) ELSE IF i <= Len(old) THEN old[i] ELSE InvCell] \o <<>>
        IN [s EXCEPT !.rows[s.y + 1] = new]
 
 \* Buffer::print_char
@@ -189,7 +189,7 @@ PrintCh(s, cell) ==
   LET s1 == IF s.im
             THEN LET r1 == AppendEmpty(s.rows, s.y + 1 - NL(s)) IN [s EXCEPT !.rows = [r1 EXCEPT ![s.y + 1] = LineInsert(@, s.x, Blank)]]
             ELSE s
-      s2 == [s1 EXCEPT !.lh = Max(s1.lh, s1.y + 1), !.bh = Max(s1.bh, s1.y + 1)]
+      s2 == [s1 EXCEPT !.lh = Max2(s1.lh, s1.y + 1), !.bh = Max2(s1.bh, s1.y + 1)]
       s3 == SetCell(s2, s2.x, s2.y, cell)
       s4 == [s3 EXCEPT !.x = s3.x + 1]
   IN IF s4.x >= s4.tw THEN (IF s4.aw THEN Lf(s4) ELSE [s4 EXCEPT !.x = s4.x - 1]) ELSE s4
@@ -279,11 +279,11 @@ Sgr(s0) == LET s == Dflt(s0) IN IF s.nums = <<>> THEN Ok(ResetColor(s)) ELSE Sgr
 
 \* ------------------------------------------------------------------ rectangles (DECFRA / DECERA / DECSERA)
 RectArea(s, o) ==     \* get_rect_area(offset o): parameters o+1..o+4 (1-based into nums: o+1 ..)
-  LET rowsMax == Max(NL(s), s.th)
-      top == Min(Max(s.nums[o + 1], 1), rowsMax) - 1
-      left == Min(Max(s.nums[o + 2], 1), s.tw) - 1
-      bottom == Min(Max(s.nums[o + 3], 1), rowsMax) - 1
-      right == Min(Max(s.nums[o + 4], 1), s.tw) - 1
+  LET rowsMax == Max2(NL(s), s.th)
+      top == Min2(Max2(s.nums[o + 1], 1), rowsMax) - 1
+      left == Min2(Max2(s.nums[o + 2], 1), s.tw) - 1
+      bottom == Min2(Max2(s.nums[o + 3], 1), rowsMax) - 1
+      right == Min2(Max2(s.nums[o + 4], 1), s.tw) - 1
   IN <<top, left, bottom, right>>
 \* Buffer::get_char on the single terminal layer: an invisible or absent cell reads as a default blank
 BufGet(s, x, y) == LET c == GetCell(s, x, y) IN IF Visible(c) THEN c ELSE Blank
@@ -296,15 +296,16 @@ MacroGet(s, id) == MacroFind(s.macros, id, Len(s.macros))
 MacroPut(s, id, body) == [s EXCEPT !.macros = Append(SelectSeq(s.macros, LAMBDA m : m[1] # id), <<id, body>>)]
 MaxMacroExpansion == 32767
 MaxMacroDepth == 16
-ByteLen(str) == LET RECURSIVE BL(_, _)
-                    BL(i, acc) == IF i > Len(str) THEN acc ELSE BL(i + 1, acc + (IF str[i] < 128 THEN 1 ELSE 2))
-                IN BL(1, 0)
+MaxMacroSize == 32767
+ByteLen(str) == FoldLeft(LAMBDA acc, c : acc + (IF c < 128 THEN 1 ELSE 2), 0, str)     \* UTF-8 length of a Latin-1 string
 HexPos(c) == IF c >= 48 /\ c <= 57 THEN c - 48 ELSE IF c >= 65 /\ c <= 70 THEN c - 55 ELSE -1
 Upper(c) == IF c >= 97 /\ c <= 122 THEN c - 32 ELSE c
 \* push_repeated
-RECURSIVE PushRepeated(_, _, _)
-PushRepeated(mac, rep, count) ==
-  IF count <= 0 \/ rep = <<>> \/ ByteLen(mac) + ByteLen(rep) > 32767 THEN mac ELSE PushRepeated(mac \o rep, rep, count - 1)
+PushRepeated(mac, rep, count) ==       \* closed form of the loop: as many copies as fit into the macro space
+  IF count <= 0 \/ rep = <<>> THEN mac
+  ELSE LET room == MaxMacroSize - ByteLen(mac)
+           k == IF room < 0 THEN 0 ELSE Min2(count, room \div ByteLen(rep))
+       IN mac \o FlattenSeq([i \in 1..k |-> rep])
 \* parse_hex_macro_sequence over the characters str[i..]; state: mode in {"first","second","rep"}
 RECURSIVE HexMacro(_, _, _, _, _, _, _, _)
 HexMacro(str, i, mode, arg, readRep, repRec, repNum, mac) ==
@@ -404,7 +405,7 @@ MusicStep(s, c) ==
     [] OTHER -> Ok(MusicDefault(s, c))
 
 \* ------------------------------------------------------------------ the character step
-RECURSIVE AnsiStep(_, _), RunMacro(_, _, _), InvokeMacro(_, _)
+RECURSIVE AnsiStep(_, _), InvokeMacro(_, _)
 
 \* invoke_macro_by_id: nesting <= 16, one top-level invocation expands to <= 32767 characters; errors are swallowed
 InvokeMacro(s, id) ==
@@ -412,11 +413,8 @@ InvokeMacro(s, id) ==
   IF ~m[1] THEN s
   ELSE LET s1 == IF s.mdepth = 0 THEN [s EXCEPT !.mbudget = MaxMacroExpansion] ELSE s IN
        IF s1.mdepth >= MaxMacroDepth THEN s1
-       ELSE [RunMacro([s1 EXCEPT !.mdepth = @ + 1], m[2], 1) EXCEPT !.mdepth = @ - 1]
-RunMacro(s, body, i) ==
-  IF i > Len(body) \/ s.mbudget = 0 THEN s
-  ELSE RunMacro(AnsiStep([s EXCEPT !.mbudget = @ - 1], body[i]).st, body, i + 1)
-
+       ELSE [FoldLeft(LAMBDA t, ch : IF t.mbudget = 0 THEN t ELSE AnsiStep([t EXCEPT !.mbudget = @ - 1], ch).st, [s1 EXCEPT !.mdepth = @ + 1], m[2])
+               EXCEPT !.mdepth = @ - 1]
 \* ESC <c>
 EscStep(s0, c) ==
   LET s == Dflt(s0) IN
@@ -557,8 +555,8 @@ EndCsiStep(s, c) ==
            [] OTHER -> Ok(s)
     [] f = 32 ->      \* ' '
          CASE c = 68 -> FontSelect(d)
-           [] c = 65 -> Ok(Times(ScrollRight, d, Min(N1(s, 1), d.bw)))
-           [] c = 64 -> Ok(Times(ScrollLeft, d, Min(N1(s, 1), d.bw)))
+           [] c = 65 -> Ok(Times(ScrollRight, d, Min2(N1(s, 1), d.bw)))
+           [] c = 64 -> Ok(Times(ScrollLeft, d, Min2(N1(s, 1), d.bw)))
            [] c = 100 -> IF NLen(s) # 1 THEN Err(d) ELSE Ok([d EXCEPT !.tabs = RemoveTab(d.tabs, s.nums[1] - 1)])
            [] OTHER -> Err(d)
     [] OTHER -> Err(d)
@@ -569,7 +567,7 @@ CsiStep(s, c) ==
   CASE c = 109 -> Sgr(s)
     [] c = 72 \/ c = 102 ->      \* CUP / HVP
          Ok(Limit(IF n = <<>> THEN [d EXCEPT !.x = 0, !.y = First(d)]
-                  ELSE [d EXCEPT !.y = SatAdd(First(d), Max(0, n[1] - 1)), !.x = IF len > 1 THEN Max(0, n[2] - 1) ELSE 0]))
+                  ELSE [d EXCEPT !.y = SatAdd(First(d), Max2(0, n[1] - 1)), !.x = IF len > 1 THEN Max2(0, n[2] - 1) ELSE 0]))
     [] c = 67 -> Ok(Right(d, N1(s, 1)))
     [] c = 106 \/ c = 68 -> Ok(Left(d, N1(s, 1)))
     [] c = 107 \/ c = 65 -> Ok(Up(d, N1(s, 1)))
@@ -585,24 +583,24 @@ CsiStep(s, c) ==
     [] c = 39 ->       \* '\''
          Ok(IF RowExists(d, d.y) THEN Limit([d EXCEPT !.x = Clamp(N1(s, 1) - 1, 0, LineLen(RowAt(d, d.y), Len(RowAt(d, d.y))))]) ELSE d)
     [] c = 97 ->       \* HPR
-         Ok(IF RowExists(d, d.y) THEN Limit([d EXCEPT !.x = Min(LineLen(RowAt(d, d.y), Len(RowAt(d, d.y))), SatAdd(d.x, N1(s, 1)))]) ELSE d)
+         Ok(IF RowExists(d, d.y) THEN Limit([d EXCEPT !.x = Min2(LineLen(RowAt(d, d.y), Len(RowAt(d, d.y))), SatAdd(d.x, N1(s, 1)))]) ELSE d)
     [] c = 71 -> Ok(Limit([d EXCEPT !.x = N1(s, 1) - 1]))
     [] c = 69 -> Ok(Limit([d EXCEPT !.y = SatAdd(First(d) + d.y, N1(s, 1)), !.x = 0]))
     [] c = 70 -> Ok(Limit([d EXCEPT !.y = SatSub(First(d) + d.y, N1(s, 1)), !.x = 0]))
     [] c = 110 -> IF len = 1 /\ n[1] \in {5, 6, 255} THEN Ok(d) ELSE Err(d)
     [] c = 88 -> IF n # <<>> THEN Ok(Erase(d, n[1])) ELSE Err(Erase(d, 1))                   \* (!) erases one cell, then reports an error
-    [] c = 64 -> IF n # <<>> THEN Ok(Times(Ins, d, Min(n[1], d.tw))) ELSE Err(Ins(d))        \* (!) same
+    [] c = 64 -> IF n # <<>> THEN Ok(Times(Ins, d, Min2(n[1], d.tw))) ELSE Err(Ins(d))        \* (!) same
     [] c = 77 ->       \* 'M': delete line, or music
          IF s.music = 1 \/ s.music = 3 THEN Ok(MusicEnter(d))
          ELSE IF n = <<>> THEN Ok(IF d.y < NL(d) THEN RemoveTermLine(d, d.y) ELSE d)
          ELSE IF len # 1 THEN Err(d)
-         ELSE Ok(Times(LAMBDA q : RemoveTermLine(q, q.y), d, Min(n[1], NL(d) - d.y)))
+         ELSE Ok(Times(LAMBDA q : RemoveTermLine(q, q.y), d, Min2(n[1], NL(d) - d.y)))
     [] c = 78 -> Ok(IF s.music = 2 \/ s.music = 3 THEN MusicEnter(s) ELSE s)                 \* (!) does not leave the CSI state
     [] c = 124 -> Ok(IF s.music # 0 THEN MusicEnter(s) ELSE s)                              \* (!) same
     [] c = 80 ->       \* DCH
-         IF n = <<>> THEN Ok(Del(d)) ELSE IF len # 1 THEN Err(d) ELSE Ok(Times(Del, d, Min(n[1], Len(RowAt(d, d.y)))))
+         IF n = <<>> THEN Ok(Del(d)) ELSE IF len # 1 THEN Err(d) ELSE Ok(Times(Del, d, Min2(n[1], Len(RowAt(d, d.y)))))
     [] c = 76 ->       \* IL
-         IF n = <<>> THEN Ok(InsertTermLine(d, d.y)) ELSE IF len # 1 THEN Err(d) ELSE Ok(Times(LAMBDA q : InsertTermLine(q, q.y), d, Min(n[1], d.th)))
+         IF n = <<>> THEN Ok(InsertTermLine(d, d.y)) ELSE IF len # 1 THEN Err(d) ELSE Ok(Times(LAMBDA q : InsertTermLine(q, q.y), d, Min2(n[1], d.th)))
     [] c = 74 ->       \* ED
          IF n = <<>> \/ n[1] = 0 THEN Ok(ClearDown(d))
          ELSE IF n[1] = 1 THEN Ok(ClearUp(d))
@@ -634,18 +632,18 @@ CsiStep(s, c) ==
                 [] n[1] = 5 \/ n[1] = 6 -> Ok(d)
                 [] OTHER -> Err(d)
     [] c = 116 ->      \* 't'
-         IF len = 3 THEN (IF n[1] = 8 THEN LET w == Max(Min(n[3], 132), 1)  h == Max(Min(n[2], 60), 1) IN Ok([d EXCEPT !.tw = w, !.th = h, !.tabs = DefTabs(w)]) ELSE Err(d))
+         IF len = 3 THEN (IF n[1] = 8 THEN LET w == Max2(Min2(n[3], 132), 1)  h == Max2(Min2(n[2], 60), 1) IN Ok([d EXCEPT !.tw = w, !.th = h, !.tabs = DefTabs(w)]) ELSE Err(d))
          ELSE IF len = 4 THEN LET q == PalInsert(d, <<n[2] % 256, n[3] % 256, n[4] % 256>>) IN
               (IF n[1] = 0 THEN Ok([q.st EXCEPT !.ca.bg = q.idx]) ELSE IF n[1] = 1 THEN Ok([q.st EXCEPT !.ca.fg = q.idx]) ELSE Err(q.st))   \* (!) colour inserted even on error
          ELSE Err(d)
-    [] c = 83 -> Ok(Times(ScrollUp, d, Min(N1(s, 1), d.lh + 1)))
-    [] c = 84 -> Ok(Times(ScrollDown, d, Min(N1(s, 1), d.lh + 1)))
-    [] c = 98 -> Ok(Times(LAMBDA q : PrintCh(q, Cell(s.last, Norm(d))), d, Min(N1(s, 1), SatMul(d.tw, d.th))))     \* REP
+    [] c = 83 -> Ok(Times(ScrollUp, d, Min2(N1(s, 1), d.lh + 1)))
+    [] c = 84 -> Ok(Times(ScrollDown, d, Min2(N1(s, 1), d.lh + 1)))
+    [] c = 98 -> Ok(Times(LAMBDA q : PrintCh(q, Cell(s.last, Norm(d))), d, Min2(N1(s, 1), SatMul(d.tw, d.th))))     \* REP
     [] c = 103 ->      \* TBC
          IF len > 1 THEN Err(d)
          ELSE LET k == N1(s, 0) IN IF k = 0 THEN Ok([d EXCEPT !.tabs = RemoveTab(d.tabs, d.x)]) ELSE IF k = 3 \/ k = 5 THEN Ok([d EXCEPT !.tabs = <<>>]) ELSE Err(d)
-    [] c = 89 -> IF len > 1 THEN Err(d) ELSE Ok(Limit(Times(LAMBDA q : [q EXCEPT !.x = NextTab(q, q.x)], d, Min(N1(s, 1), Len(d.tabs) + 1))))
-    [] c = 90 -> IF len > 1 THEN Err(d) ELSE Ok(Limit(Times(LAMBDA q : [q EXCEPT !.x = PrevTab(q, q.x)], d, Min(N1(s, 1), Len(d.tabs) + 1))))
+    [] c = 89 -> IF len > 1 THEN Err(d) ELSE Ok(Limit(Times(LAMBDA q : [q EXCEPT !.x = NextTab(q, q.x)], d, Min2(N1(s, 1), Len(d.tabs) + 1))))
+    [] c = 90 -> IF len > 1 THEN Err(d) ELSE Ok(Limit(Times(LAMBDA q : [q EXCEPT !.x = PrevTab(q, q.x)], d, Min2(N1(s, 1), Len(d.tabs) + 1))))
     [] OTHER ->
          IF c >= 64 /\ c <= 126 THEN Err(d)
          ELSE IF IsDigit(c) THEN Ok([s EXCEPT !.start = FALSE, !.nums = PushDigit(s.nums, c)])
@@ -711,10 +709,10 @@ AvatarStep(s, c) ==
          LET back == F("chars", f.n, f.rc) IN
          CASE c = 1 -> Ok(F("color", f.n, f.rc))
            [] c = 2 -> Ok(Limit([back EXCEPT !.ca.at = SetBit(@, BLINK)]))
-           [] c = 3 -> Ok(Limit([back EXCEPT !.y = Max(0, s.y - 1)]))
+           [] c = 3 -> Ok(Limit([back EXCEPT !.y = Max2(0, s.y - 1)]))
            [] c = 4 -> Ok(Limit([back EXCEPT !.y = s.y + 1]))
-           [] c = 5 -> Ok(Limit([back EXCEPT !.x = Max(0, s.x - 1)]))
-           [] c = 6 -> Ok(Limit([back EXCEPT !.x = Min(79, s.x + 1)]))
+           [] c = 5 -> Ok(Limit([back EXCEPT !.x = Max2(0, s.x - 1)]))
+           [] c = 6 -> Ok(Limit([back EXCEPT !.x = Min2(79, s.x + 1)]))
            [] c = 7 -> Err(s)                                             \* (!) stays in the command state
            [] c = 8 -> Ok(F("move", 1, f.rc))
            [] OTHER -> Err(back)
